@@ -231,6 +231,12 @@ def run_step(e, t, opts):
         r = nat.remove(ids[i])
         e.verify(r.variant == 0, 'C12: removal of a live datum was rejected')
     new = []
+    # an addition whose name clashes with a live carried-over datum must be refused (and must not make the
+    # strategy re-place that datum)
+    clash = [i for i in range(n) if i not in t['stale'] and i not in t['rm']]
+    if clash and opts.get('clash', True) and not t.get('fixed'):
+        r = nat.add('p%d' % clash[0], 4, 4)
+        e.verify(r.variant == 1, 'C12: adding a name that already exists in the current variant was accepted')
     for j in range(M):
         if t.get('new_aligns'):
             a = t['new_aligns'][j]
@@ -449,7 +455,9 @@ def model_to_scenario(t, model, opts):
         a = t['new_aligns'][j] if t.get('new_aligns') else g('na%d' % j, 1)
         new.append(dict(s=g('ns%d' % j), a=a))
     pend = [dict(s=g('ps%d' % j), a=g('pa%d' % j, 1)) for j in range(t['P'])]
-    sc = dict(kind='step', strategy=t['strategy'], pre=pre, stale=t['stale'], rm=t['rm'], pending=pend, new=new)
+    live = [i for i in range(n) if i not in t['stale'] and i not in t['rm']]
+    sc = dict(kind='step', strategy=t['strategy'], pre=pre, stale=t['stale'], rm=t['rm'], pending=pend, new=new,
+              clash=('p%d' % live[0]) if (live and not t.get('fixed')) else None)
     if t.get('fixed'):
         f = t['fixed']
         gf = lambda k, d=0: int(f.get(k, d))
